@@ -65,7 +65,7 @@ NOT_APPLICABLE = {
 }
 
 # properties that will be claimed but whose check is not built yet
-PENDING = {k: "claimed in DESIGN.md; its check is not built yet in this commit" for k in ("C10 C11 C12 C13 C14 C16").split()}
+PENDING = {k: "claimed in DESIGN.md; its check is not built yet in this commit" for k in ("C10 C11 C12 C13 C16").split()}
 
 PROPS = {}
 
@@ -230,3 +230,19 @@ _p('C09', 'exploration',
 
 PROPS['C05'].parts.append(Part('registry', {'props': ['C05'], 'shape': 'specdyn'}, configs=[(C, 2), (PY, 2)], quick=4000, thorough=200000,
                                name='registry/C05/specs', timeout=40.0))
+
+
+_p('C14', 'fault_enumeration',
+   [Part('adapt', {}, configs=[(C, 1), (PY, 1)], kind='enum', name='adapt/product', timeout=120.0),
+    Part('adapt', {}, configs=[(C, 3), (PY, 2), (C_H1, 1)], quick=3000, thorough=150000, name='adapt/sequences')],
+   rule='one case = one call I(obj[, alternate]) under a fault plan that dictates the behaviour of every user callback on the path '
+        '(__conform__ variants incl. failing attribute access and an instance method on a class, provided or not, 0-3 adapter hooks that '
+        'return None / a value / raise / mutate the hook list while it is walked, custom __adapt__ via interfacemethod, sub-interface, '
+        "a registry's adapter_hook as a hook); the complete product is enumerated, then seeded random sequences over shared interface "
+        'objects; oracle = AdaptModel (value by identity, exception type and TypeError args, stub call log); distinct_nontrivial = distinct fault plans executed',
+   assumptions=['a hook that mutates adapter_hooks while it is walked is modelled with list-iterator semantics (the hooks "installed" at each '
+                'moment, in list order)', REAL_STUB],
+   level_text='the fault product of the callbacks on the adaptation path is finite and is enumerated completely in both implementations; seeds '
+              'add long random sequences with state carried between calls',
+   technique='deterministic simulation: complete enumeration of the callback fault plan + seeded sequences vs AdaptModel (PEP 246 order) incl. stub call log',
+   design_ref='DESIGN.md 3/C14')
